@@ -3,7 +3,7 @@
    below the table size).  Part 3: attribute arrays and one open file: invariant, no undefined
    behaviour, refinement of the linear model.  Part 4: worlds and histories.  Part 5: name/id agreement,
    data-mode header updates, persistence (composition with Proofs_Header). *)
-From Pnc Require Import Base Header HeaderSpec Data Meta Proofs_Base Proofs_Header.
+From Pnc Require Import Base Header HeaderSpec Data Meta Proofs_Base Proofs_Lists Proofs_Header.
 Require Import Lia ZArith ZifyBool List Bool Arith.
 Import ListNotations.
 Local Open Scope Z_scope.
